@@ -227,16 +227,46 @@ class Client(object):
         return self.connected and self.authed and not self.passive()
 
     def guarded(self, fn, what):
-        """Run a call into the stack; an escaping exception is recorded (the checks judge it)."""
+        """Run a call into the stack; an escaping exception is recorded (the checks judge it). A call that does not come back
+        within HANG_SECONDS of wall time (a loop without end inside the library) is interrupted and recorded as LibraryHang."""
+        import signal, threading as _th
+        timed = _th.current_thread() is _th.main_thread() and hasattr(signal, "setitimer")
+        if timed:
+            limit = getattr(self.world, "hang_seconds", HANG_SECONDS)
+
+            def on_alarm(signum, frame):
+                raise LibraryHang("call into the stack did not return after %d s of processor time (%s)" % (limit, what))
+            # (processor time of this process, not wall time: a loaded machine does not make a call look endless)
+            old_h = signal.signal(signal.SIGVTALRM, on_alarm)
+            signal.setitimer(signal.ITIMER_VIRTUAL, limit)
         try:
-            fn()
-            return True
+            try:
+                fn()
+                return True
+            finally:
+                if timed:
+                    signal.setitimer(signal.ITIMER_VIRTUAL, 0)
+                    signal.signal(signal.SIGVTALRM, old_h)
         except Exception as e:  # noqa
             import traceback
             fr = [fs for fs in traceback.extract_tb(e.__traceback__) if "/yowsup/" in fs.filename][-1:]
-            self.errors.append({"what": what, "type": type(e).__name__, "msg": str(e)[:300], "where": "%s:%s" % (os.path.basename(fr[0].filename), fr[0].name) if fr else "?"})
+            where = "%s:%s" % (os.path.basename(fr[0].filename), fr[0].name) if fr else "?"
+            if isinstance(e, LibraryHang):
+                where = "endless"       # (the frame the interrupt happened to hit says nothing)
+            self.errors.append({"what": what, "type": type(e).__name__, "msg": str(e)[:300], "where": where})
             self.world.log.append(("exception", self.phone, what, type(e).__name__, str(e)[:200]))
+            if isinstance(e, LibraryHang):
+                # whatever the endless loop wrote meanwhile is not worth delivering: the verdict is the hang itself
+                self.world.server.inbound[self.phone] = []
+                self.world.count("library_hangs")
             return False
+
+
+HANG_SECONDS = 30
+
+
+class LibraryHang(Exception):
+    pass
 
 
 # =============================================================================================
@@ -513,6 +543,11 @@ class Server(object):
             stanza = (stanza[0], stanza[1], kids, stanza[3])
             self.world.count("fault_corrupt_injected")
             self.world.log.append(("fault-corrupt", mid, phone))
+        if f.get("as_broadcast") and kind == "direct":
+            # relayed the way the server relays a broadcast-list / status message: 'from' names the list, 'participant' the sender
+            a_ = dict(stanza[1], **{"from": f["as_broadcast"], "participant": stanza[1]["from"]})
+            stanza = (stanza[0], a_, stanza[2], stanza[3])
+            self.world.count("relayed_as_broadcast")
         self.to_client(phone, stanza)
         if f.get("dup") and ("dup", key) not in self.done_faults:
             self.done_faults.add(("dup", key))
@@ -535,8 +570,8 @@ class Server(object):
         out = {"id": a["id"], "t": self.now()}
         if a.get("type"):
             out["type"] = a["type"]
-        if "-" in to.split("@")[0]:
-            # receipt for a group message: goes to the author (participant), from the group, participant = receiver
+        if "-" in to.split("@")[0] or to.endswith("@broadcast"):
+            # receipt for a group (or broadcast-list) message: goes to the author (participant), from the group, participant = receiver
             author = a.get("participant")
             if not author:
                 return
